@@ -51,6 +51,7 @@ fn run(cx: &mut Cx, mode: Mode) {
         session(cx, m, s, issuer, holder, verifier, ideal.clone());
     }
     cx.run();
+    if mode == Mode::Complete && cx.ch.chance("concurrent_burst", 1, 8) { crate::scen_burst::proof_burst(cx, false); }
 }
 
 pub fn gen_disclosure(cx: &mut Cx, l: usize, salt: u64) -> Vec<usize> {
